@@ -143,18 +143,26 @@ func overlayFiles(c *config) (map[string]string, []string, error) {
 			}
 		}
 	}
-	hdir := filepath.Join(c.HarnessDir, c.Pkg)
-	ents, err = os.ReadDir(hdir)
-	if err != nil {
-		return nil, nil, err
-	}
-	for _, e := range ents {
-		if strings.HasSuffix(e.Name(), ".go") {
-			virt := filepath.Join(c.Repo, c.Pkg, "zz_verif_"+e.Name())
-			ov[virt] = filepath.Join(hdir, e.Name())
-			harnessFiles = append(harnessFiles, filepath.Join(hdir, e.Name()))
+	// the in-package harness files of EVERY package are overlaid (a harness may call exported helpers that the
+	// harness file of a package it imports defines); only those of c.Pkg are harness entry points
+	filepath.Walk(c.HarnessDir, func(path string, info os.FileInfo, err error) error {
+		if err != nil || info.IsDir() || !strings.HasSuffix(path, ".go") {
+			return nil
 		}
+		rel, _ := filepath.Rel(c.HarnessDir, filepath.Dir(path))
+		if rel == "sym" || rel == "zzlib" || strings.HasPrefix(rel, "zzlib"+string(filepath.Separator)) || rel == "." {
+			return nil
+		}
+		ov[filepath.Join(c.Repo, rel, "zz_verif_"+filepath.Base(path))] = path
+		if rel == c.Pkg {
+			harnessFiles = append(harnessFiles, path)
+		}
+		return nil
+	})
+	if len(harnessFiles) == 0 {
+		return nil, nil, fmt.Errorf("no harness files for package %s", c.Pkg)
 	}
+	sort.Strings(harnessFiles)
 	return ov, harnessFiles, nil
 }
 
